@@ -242,7 +242,7 @@ def _classify_check(chk):
     return "property"
 
 
-BATCH = int(os.environ.get("VERIF_KANI_BATCH", "6"))
+BATCH = int(os.environ.get("VERIF_KANI_BATCH", "8"))
 
 
 def run_group(scratch, cfg_name, harnesses, jobs=None, extra_args=None):
